@@ -345,6 +345,10 @@ impl TransactionGuard {
 
 impl Drop for TransactionGuard {
     fn drop(&mut self) {
+        #[cfg(redb_verif)]
+        if matches!(self, Self::Read { .. }) {
+            crate::verif_types::pause("guard.drop_read");
+        }
         match self {
             Self::Read {
                 tracker,
@@ -555,6 +559,8 @@ impl Sealed for Database {}
 impl ReadableDatabase for Database {
     fn begin_read(&self) -> Result<ReadTransaction, TransactionError> {
         let guard = TransactionGuard::allocate_read(self.transaction_tracker.clone(), &self.mem)?;
+        #[cfg(redb_verif)]
+        crate::verif_types::pause("begin_read.registered");
         #[cfg(feature = "logging")]
         debug!("Beginning read transaction id={:?}", guard.id());
         ReadTransaction::new(self.get_memory(), guard)
@@ -1378,6 +1384,8 @@ fn close_database(transaction_tracker: &Arc<TransactionTracker>, mem: &Arc<Trans
 
 impl Drop for Database {
     fn drop(&mut self) {
+        #[cfg(redb_verif)]
+        crate::verif_types::pause("db.drop");
         if self
             .transaction_tracker
             .defer_close_if_write_transaction_live(&self.mem)
